@@ -647,33 +647,21 @@ class Triangle(Polygon, Simplex):
 
     def contains(self, other: PointTensor) -> npt.NDArray[np.bool_]:
         # faster algorithm using barycentric coordinates
+        if self.dim > 2:
+            # the barycentric coordinates are only defined in the plane of the triangle
+            return super().contains(other)
 
-        # TODO: vectorize
-
-        a, b, c, p = np.broadcast_arrays(*self.array, other.array)
+        a, b, c, p = np.broadcast_arrays(*self.normalized_array, other.normalized_array)
 
         lambda1 = det(np.stack([p, b, c], axis=-2))
         lambda2 = det(np.stack([a, p, c], axis=-2))
-
-        result = (lambda1 <= 0) == (lambda2 <= 0)
-
-        if not np.any(result):
-            return result
-
         lambda3 = det(np.stack([a, b, p], axis=-2))
 
-        area = lambda1 + lambda2 + lambda3
-
-        if np.isscalar(area):
-            if area < 0:
-                return lambda1 <= 0 and lambda3 <= 0
-            return lambda1 >= 0 and lambda3 >= 0
-
-        ind = area < 0
-        result[ind] &= (lambda1[ind] <= 0) & (lambda3[ind] <= 0)
-        result[~ind] &= (lambda1[~ind] >= 0) & (lambda3[~ind] >= 0)
-
-        return result
+        # the point lies in the triangle (or on its boundary) if no barycentric coordinate has the opposite sign
+        # of the oriented area of the triangle
+        orientation = np.sign(det(np.stack([a, b, c], axis=-2)))
+        lambdas = np.stack([lambda1, lambda2, lambda3], axis=-1) * np.expand_dims(orientation, -1)
+        return np.all(lambdas >= -EQ_TOL_ABS, axis=-1) & ~other.isinf
 
 
 class Rectangle(Polygon):
